@@ -12,8 +12,11 @@ import traceback
 
 VERIF = os.path.dirname(os.path.dirname(os.path.abspath(__file__)))
 REPO = os.environ.get("VERIF_REPO", "/repo")
-EVIDENCE_DIR = os.environ.get("VERIF_EVIDENCE_DIR", os.path.join(VERIF, "evidence"))
-REPLAY_DIR = os.environ.get("VERIF_REPLAY_DIR", os.path.join(VERIF, "replays"))
+# evidence/ and replays/ under /verif describe runs against /repo itself; a run pointed at another checkout (mutation,
+# seeded-change and debugging runs) keeps its files inside that checkout unless told otherwise
+_OTHER = os.path.realpath(REPO) != os.path.realpath("/repo")
+EVIDENCE_DIR = os.environ.get("VERIF_EVIDENCE_DIR", os.path.join(REPO, ".verif_evidence") if _OTHER else os.path.join(VERIF, "evidence"))
+REPLAY_DIR = os.environ.get("VERIF_REPLAY_DIR", os.path.join(REPO, ".verif_replays") if _OTHER else os.path.join(VERIF, "replays"))
 KNOWN_FILE = os.path.join(VERIF, "known_findings.json")
 NPROC = int(os.environ.get("VERIF_NPROC", "16"))
 
